@@ -267,21 +267,24 @@ func (a *attacker) ping(timeout time.Duration) int {
 	}
 }
 
-func listed(s *torrent.VerifSnap, ip string) bool {
+func listed(s *torrent.VerifSnap, ip string) bool { return listedKind(s, ip) != 0 }
+
+// listedKind: 0 not listed, 1 an established peer, 2 only the address reservation (connectedPeerIPs)
+func listedKind(s *torrent.VerifSnap, ip string) int {
 	if s == nil {
-		return false
-	}
-	for _, x := range s.ConnectedIPs {
-		if x == ip {
-			return true
-		}
+		return 0
 	}
 	for _, p := range s.PeerList {
 		if strings.HasPrefix(p.Addr, ip+":") {
-			return true
+			return 1
 		}
 	}
-	return false
+	for _, x := range s.ConnectedIPs {
+		if x == ip {
+			return 2
+		}
+	}
+	return 0
 }
 
 // observe reports (alive, listed, pong). Returns errHang if the loop stopped answering.
@@ -471,7 +474,7 @@ func magnetOf(tor *vh.Torrent) string {
 	return "magnet:?xt=urn:btih:" + hex.EncodeToString(tor.InfoHash[:])
 }
 
-var scLayout = vh.Layout{Name: "c08", PieceLen: 2 * blockLen, Files: []vh.FileSpec{{Length: 3*2*blockLen + 20000}}}
+var scLayout = vh.Layout{Name: "c08", PieceLen: 2 * blockLen, Files: []vh.FileSpec{{Length: 11*2*blockLen + 20000}}} // 12 pieces: the bitfield has two bytes
 
 func (w *world) runScenario(sc *scenario) (err error) {
 	out := w.out
@@ -725,13 +728,34 @@ func (w *world) runScenario(sc *scenario) (err error) {
 	out.emit(map[string]any{"op": "Dbg", "at": "attackers connected"})
 	stopped := false
 	var stopDone chan struct{}
+	// Torrent.Stop writes the resume database first (can take long on a busy machine): the Stop event is
+	// recorded only when the loop has really entered Stopping / Stopped
+	var silent net.Conn
+	defer func() {
+		if silent != nil {
+			silent.Close()
+		}
+	}()
+	doStop := func() error {
+		// one more connection (127.0.0.10) that is still in its handshake when the torrent is stopped
+		if nc, derr := vh.DialFrom("127.0.0.10", addr, 2*time.Second); derr == nil {
+			silent = nc
+			w.hub.Wait(id, 2*time.Second, func(s *torrent.VerifSnap) bool { return s.InHS > 0 })
+		}
+		stopDone = make(chan struct{})
+		go func() { tr.Stop(); close(stopDone) }()
+		if !waitSt(30*time.Second, func(s *torrent.VerifSnap) bool { return s.Stopping || !s.Running }) {
+			return reach("stopping", false)
+		}
+		out.emit(map[string]any{"op": "Stop"})
+		return nil
+	}
 	for i, m := range sc.Msgs {
 		if sc.St == "stopping" && i == sc.Split && !stopped {
 			stopped = true
-			stopDone = make(chan struct{})
-			go func() { tr.Stop(); close(stopDone) }()
-			w.hub.Wait(id, 3*time.Second, func(s *torrent.VerifSnap) bool { return s.Stopping || !s.Running })
-			out.emit(map[string]any{"op": "Stop"})
+			if err = doStop(); err != nil {
+				return err
+			}
 		}
 		b, eerr := encodeClass(m.Cls, e)
 		if eerr != nil {
@@ -745,10 +769,9 @@ func (w *world) runScenario(sc *scenario) (err error) {
 	}
 	if sc.St == "stopping" && !stopped {
 		stopped = true
-		stopDone = make(chan struct{})
-		go func() { tr.Stop(); close(stopDone) }()
-		w.hub.Wait(id, 3*time.Second, func(s *torrent.VerifSnap) bool { return s.Stopping || !s.Running })
-		out.emit(map[string]any{"op": "Stop"})
+		if err = doStop(); err != nil {
+			return err
+		}
 	}
 	obs := func(phase string) error {
 		for p := 1; p <= sc.NPe; p++ {
@@ -758,7 +781,8 @@ func (w *world) runScenario(sc *scenario) (err error) {
 					return h
 				}
 			}
-			out.emit(map[string]any{"op": "Obs", "pe": p, "alive": alive, "listed": lst, "pong": pong, "phase": phase})
+			out.emit(map[string]any{"op": "Obs", "pe": p, "alive": alive, "listed": lst, "pong": pong, "phase": phase,
+				"lkind": listedKind(w.hub.Get(id), atk[p].ip)})
 		}
 		return nil
 	}
@@ -823,7 +847,7 @@ func (w *world) runScenario(sc *scenario) (err error) {
 		case <-stopDone:
 		case <-time.After(3 * time.Second):
 		}
-		if !w.hub.Wait(id, 6*time.Second, func(s *torrent.VerifSnap) bool { return !s.Running }) {
+		if !waitSt(30*time.Second, func(s *torrent.VerifSnap) bool { return !s.Running }) {
 			return reach("stopped", false)
 		}
 		honest.Close()
@@ -837,6 +861,21 @@ func (w *world) runScenario(sc *scenario) (err error) {
 		addr = fmt.Sprintf("127.0.0.1:%d", tr.Port())
 		if err = connectHonest(); err != nil {
 			return err
+		}
+		// the address that was in its handshake at Stop must be able to connect again
+		if silent != nil {
+			silent.Close()
+			silent = nil
+			rok := 0
+			for try := 0; try < 3 && rok == 0; try++ {
+				if nc, derr := vh.DialFrom("127.0.0.10", addr, 2*time.Second); derr == nil {
+					if _, herr := vh.PlainHandshake(nc, tor.InfoHash, vh.PeerID(fmt.Sprintf("again-%d", sc.ID)), vh.ReservedBits(true, true, false), 5*time.Second); herr == nil {
+						rok = 1
+					}
+					nc.Close()
+				}
+			}
+			out.emit(map[string]any{"op": "Reconn", "ok": rok})
 		}
 	}
 	if sc.St != "down" && sc.St != "seed" {
